@@ -475,4 +475,11 @@ def r6_clone(F, R):
     R.floor(3)
 
 
-RULES = [("R1", r1, None), ("R2", r2, None), ("R3", r3, None), ("R4", r4, None), ("R5", r5, None), ("R6", r6_clone, None)]
+def r7(F, R):
+    """"... while other scenarios keep running meanwhile": a Serial entry that is only waiting for its retry deadline must not hold
+    back the Concurrent queue — when the Serial drain yields nothing GET falls through to the Concurrent drain (= C06.R3)."""
+    from . import c06
+    c06.r3(F, R)
+
+
+RULES = [("R1", r1, None), ("R2", r2, None), ("R3", r3, None), ("R4", r4, None), ("R5", r5, None), ("R6", r6_clone, None), ("R7", r7, None)]
